@@ -861,7 +861,8 @@ def judge(t, w, ref_obs, sc):
         bad.append(("rerun-diverges", "re-run + recheck differs from the uninterrupted run: " + "; ".join(diffs[:4])
                     + ((" [re-run failed: %s]" % (r1.err.strip().split("\n")[0][:120])) if r1.failed else "")
                     + (" [only-permission-bits]" if perm_only else "")
-                    + (" [only-source-left]" if source_left_only(ref_obs, after) else "")))
+                    + (" [only-source-left]" if source_left_only(ref_obs, after) else "")
+                    + (" [only-extra-objects]" if extra_objects_only(ref_obs, after) else "")))
     return bad, loads
 
 
@@ -889,6 +890,15 @@ def source_left_only(ref_obs, after):
     extra = [k for k in after["ws"] if k not in ref_obs["ws"]]
     same = all(after["ws"].get(k) == v for k, v in ref_obs["ws"].items())
     return bool(extra) and same and all(after["ws"][k][0] == "F" and after["ws"][k][2] in objbytes for k in extra)
+
+
+def extra_objects_only(ref_obs, after):
+    """the two states differ only in cache objects that exist after the re-run and not in the uninterrupted run
+    (objects whose records were removed before the kill: nothing refers to them, nothing is lost)"""
+    if ref_obs["ws"] != after["ws"] or ref_obs["recs"] != after["recs"]:
+        return False
+    extra = [k for k in after["objs"] if k not in ref_obs["objs"]]
+    return bool(extra) and all(after["objs"].get(k, [None])[0] == v[0] and after["objs"][k][3:] == v[3:] for k, v in ref_obs["objs"].items())
 
 
 def classify(clause, ks):
@@ -939,6 +949,12 @@ def one_kill(t, sc, canon, full, ref_obs, inject):
             # (decided on the state, the class explains a divergence only when nothing but permission bits differs)
             if k is None and state_p34 and cl == "rerun-diverges" and "[only-permission-bits]" in what:
                 k = "object-left-writable"
+            # P23 / P23b (records and content change in an order a re-run cannot repair) were written for track and
+            # carry-in; for copy / move / remove / untrack they explain a divergence only when nothing was lost: the
+            # source of a move left behind, or objects left in the cache that no record refers to any more
+            if k in ("crash-between-records-and-content", "crash-between-records-and-replacement") and kind_ in ("move", "copy", "remove", "untrack") \
+                    and cl == "rerun-diverges" and "[only-source-left]" not in what and "[only-extra-objects]" not in what:
+                k = None
 
             out.append((cl, what, k))
         return {"inject": inject, "killed": True, "call": raw, "canon": killed, "done": len(done), "classes": ks + (["object-left-writable"] if state_p34 else []),
